@@ -115,7 +115,7 @@ CHECKS["C18"] = {
     "rule": "Engine B: the repository sources are rewritten at check time (go build -overlay) so that every mutex, atomic, channel, timer, socket and goroutine-spawn "
             "operation is a scheduling point; for each closed scenario (S1 CreatePermission vs lifetime timer, S2 ChannelBind vs lifetime timer, S3 Refresh vs lifetime timer + re-Allocate, "
             "S4 peer datagram vs Refresh0, S5 permission refresh vs permission timer, S6 channel refresh vs channel timer, S7 Connect/duplicate Connect/Refresh on a TCP allocation, "
-            "S8 Server.Close vs request vs peer datagram, S10 two stream clients on one manager, S11 inbound peer connection to a TCP allocation vs Refresh 0, S12 Server.Close vs Allocate of a stream client with yielding callbacks, S13 a stream client with a bound channel stops reading (the server's writes to it block, simnet models the full window) while its peer sends, then its allocation ends: the other client of the listener is still served, S14 a permission's expiry (callback yielding) vs ChannelBinds for new channels on that allocation; client side: K1 PerformTransaction vs response vs retransmission timer vs Close, K1b two transactions with crossed responses, K6 Close vs the start of a transaction, K7 response as fast as the first write, K8 two concurrent closers of the relayed socket, K9 Client.CreatePermission vs closing the relayed socket, K10 two writers to one bound peer, K12 response at the final time-out of a transaction, K11 ReadFrom reporting a timeout vs SetReadDeadline, "
+            "S8 Server.Close vs request vs peer datagram, S10 two stream clients on one manager, S11 inbound peer connection to a TCP allocation vs Refresh 0, S12 Server.Close vs Allocate of a stream client with yielding callbacks, S13 a stream client with a bound channel stops reading (the server's writes to it block, simnet models the full window) while its peer sends, then its allocation ends: the other client of the listener is still served, S14 a permission's expiry (callback yielding) vs ChannelBinds for new channels on that allocation, S15 Server.Close while a Connect is still dialling its peer; client side: K1 PerformTransaction vs response vs retransmission timer vs Close, K1b two transactions with crossed responses, K6 Close vs the start of a transaction, K7 response as fast as the first write, K8 two concurrent closers of the relayed socket, K9 Client.CreatePermission vs closing the relayed socket, K10 two writers to one bound peer, K12 response at the final time-out of a transaction, K11 ReadFrom reporting a timeout vs SetReadDeadline, "
             "K2 two WriteTo on one new peer, K3 relayed-socket Close vs WriteTo vs inbound Data indication, K5 ReadFrom vs inbound vs Close, against a scripted TURN server thread; lifecycle callbacks yield) ALL schedules with at most 2 (thorough 3) preemptions are executed "
             "on the real code by prefix replay; timers whose deadline is within 1ms may fire at any point. Verdicts: panic in any thread, deadlock, lock held when its holder exits, "
             "unlock of unlocked mutex, harness thread that must complete but never does. A class is (scenario => sorted verdict set). "
